@@ -1722,9 +1722,10 @@ namespace awkward {
 
       ContentPtrVec contents;
       for (auto content : contents_) {
-        contents.push_back(content.get()->getitem_next(head,
-                                                       emptytail,
-                                                       advanced));
+        // (fields may be longer than the record array: only the first length() items belong to it,
+        // and `advanced` has one entry per record)
+        contents.push_back(content.get()->getitem_range_nowrap(0, length()).get()
+                             ->getitem_next(head, emptytail, advanced));
       }
       util::Parameters parameters;
       if (head.get()->preserves_type(advanced)) {
